@@ -148,4 +148,55 @@ def getListing (t : Table) (opts : List Bytes) : Bytes := listing t (opts.head?.
 /-- what a reader of `count` bytes at `offset` must see -/
 def window (l : Bytes) (offset count : Nat) : Bytes := (l.drop offset).take count
 
+/-! ### a live server: the table changes between requests (what "currently registered" means over time)
+
+The application may describe a resource further while it is registered (`coap_add_attr`,
+`coap_resource_set_get_observable` on a resource the context already holds): the resource keeps its place in the
+table, the change is part of the listing from then on.  Every resource-discovery request is answered from the table
+as it is when the request arrives. -/
+
+inductive TableOp where
+  /-- `coap_add_resource` -/
+  | reg (r : Resource)
+  /-- `coap_delete_resource` of the resource registered for this path (nothing if there is none) -/
+  | unreg (p : Bytes)
+  /-- `coap_add_attr` on the resource registered for this path (nothing if there is none) -/
+  | attr (p : Bytes) (a : Attr)
+  /-- `coap_resource_set_get_observable` on the resource registered for this path -/
+  | obs (p : Bytes) (b : Bool)
+  deriving DecidableEq, Repr
+
+def applyOp (t : Table) : TableOp → Table
+  | .reg r => register t r
+  | .unreg p => unregister t p
+  | .attr p a => t.map fun r => if r.path == p then addAttr r a else r
+  | .obs p b => t.map fun r => if r.path == p then { r with observable := b } else r
+
+/-- what happens at a live server, in order -/
+inductive LiveEv where
+  | op (o : TableOp)
+  /-- a complete block-wise `GET /.well-known/core` (Block2 size `2^(szx+4)`) with these Uri-Query options on session `sid` -/
+  | get (sid szx : Nat) (opts : List Bytes)
+  /-- the application itself asks for the listing (`coap_print_wellknown`: size probe, then the whole) -/
+  | print (qf : Option Bytes)
+  deriving DecidableEq, Repr
+
+/-- what a request yields: the reassembled body, the number of responses it took, whether it failed -/
+structure LiveRes where
+  buf : Bytes
+  nresp : Nat
+  failed : Bool
+  deriving DecidableEq, Repr
+
+/-- number of responses of a complete Block2 transfer of `len` bytes in blocks of `sz` (an empty body takes one) -/
+def specBlocks (len sz : Nat) : Nat := if len = 0 then 1 else (len + sz - 1) / sz
+
+/-- every request sees the listing of the table as it is at that moment -/
+def liveSpec : Table → List LiveEv → List LiveRes
+  | _, [] => []
+  | t, .op o :: r => liveSpec (applyOp t o) r
+  | t, .get _ szx opts :: r =>
+    ⟨getListing t opts, specBlocks (getListing t opts).length (2 ^ (szx + 4)), false⟩ :: liveSpec t r
+  | t, .print qf :: r => ⟨listing t (qf.getD []), 0, false⟩ :: liveSpec t r
+
 end Coap.LF
